@@ -90,6 +90,21 @@ def compOp (op : String) (j : Json) : Except String Json := do
     if !missing.isEmpty then return obj [("need_stage_loads", Json.arr missing.toArray)]
     return obj [("points", Json.arr ((serialPoints stages).map fun p => Json.arr #[ratJ p.1, ratJ p.2]).toArray),
                 ("legacy_abscissa", ratsJ ((List.range 11).map fun (k : Nat) => serialAbscissaLegacy stages ((k : Rat) / 10)))]
+  | "comp.convert_modelled" =>
+    -- the two bidirectional conversions of a component, characteristic AND interpolated inverse computed by the model
+    let rated ← jRat (← fld j "rated")
+    let pts ← (← jArr (← fld j "points")).mapM fun p => do
+      match ← jRats p with
+      | [a, b] => pure (a, b)
+      | _ => throw "expected [load, efficiency]"
+    let ps ← jRats (← fld j "p")
+    let dir ← jStr (← fld j "dir")
+    match Feems.Pchip.curve pts 0 with
+    | .error e => throw e
+    | .ok _ =>
+      let η := etaOfPoints pts
+      let inv := invTable η rated
+      return ratsJ (ps.map fun p => if dir == "out_from_in" then outFromIn η inv rated p else inFromOut η inv rated p)
   | "comp.serial_modelled" =>
     -- stages: [{rated, points}]; the train's efficiency at the given system loads, by the model alone
     let stagesJ ← jArr (← fld j "stages")
